@@ -1348,10 +1348,19 @@ class Signature:
                     ctx.visitor.show_caught_errors(caught_errors)
                     had_error = True
             elif self.evaluator is not None:
-                varmap = {
-                    param: composite.value
-                    for param, (_, composite) in bound_args.items()
-                }
+                varmap = {}
+                for param_name, (position, composite) in bound_args.items():
+                    value = composite.value
+                    param = self.parameters[param_name]
+                    if (
+                        position is DEFAULT
+                        and value is param.default
+                        and value == KnownValue(...)
+                    ):
+                        # If the default is "...", the type of an omitted
+                        # argument is the parameter's annotation.
+                        value = param.annotation
+                    varmap[param_name] = value
                 positions = {
                     param: position for param, (position, _) in bound_args.items()
                 }
